@@ -122,6 +122,22 @@ def search(ctx):
             if not (dev <= tol * max(1.0, float(np.abs(a).max()))):
                 ctx.violation("C07:grid-vs-points:%s" % name, "grid and explicit point list disagree (max dev %.3g, %s)" % (dev, name),
                               dict(kind="grid-points", **info))
+            # a detector is a set of positions: what an image used as detector happens to STORE at them (measured counts, NaN for
+            # dead pixels, inf) changes no calculated value
+            if i % 3 == 0:
+                dimg = det.copy()
+                vals_ = rng.normal(size=det.shape) * 3
+                flat_ = vals_.ravel()
+                flat_[rng.integers(0, flat_.size)] = np.nan
+                if flat_.size > 2:
+                    flat_[rng.integers(0, flat_.size)] = np.inf
+                dimg.values[:] = flat_.reshape(det.shape)
+                hd_ = calc_holo(dimg, sc, illum_polarization=pol, theory=th, **OPT)
+                same = np.array_equal(np.asarray(hd_.transpose(*hg.dims).values), np.asarray(hg.values), equal_nan=False)
+                ctx.tried("detector-data-irrelevant", (name, nx, ny, i))
+                if not same:
+                    ctx.violation("C07:detector-data", "an image holding data (with a NaN and an inf pixel) used as detector gives other values than the bare grid of the same positions (%s)" % name,
+                                  dict(kind="detector-data", **info))
             # random pixel subset commutes with the forward calculation
             if nx * ny >= 1:
                 npix = int(rng.integers(1, nx * ny + 1))
